@@ -105,7 +105,7 @@ class ColumnSumDispatch(Family):
     name = "RaggedArray.sum[axis=0]"
     qualname = "npstructures.raggedarray:RaggedArray.sum"
     serves = ["C09", "C19"]
-    assumed = ["numpy.add.at / weighted bincount accumulate the weights per index (values: bounded stand-in)",
+    assumed = ["numpy.add.at / weighted bincount accumulate the weights per index (integer values proved in RaggedArray.sum[axis=0] values; float values: bounded stand-in)",
                "numpy.issubdtype table for the element dtype (evaluated by numpy itself)"]
 
     def kinds(self):
